@@ -41,13 +41,15 @@ uint8_t* env_realloc(uint8_t* p, uint64_t n) { (void)p; (void)n; ENV_ENGINE_ASSE
 uint32_t env_vsnprintf(uint8_t* s, uint64_t n, uint8_t* f, uint8_t* va) { (void)f; (void)va; if (n > 1) { s[0] = 'W'; s[1] = 0; } else if (n) s[0] = 0; return 1; }
 
 /* ------------------------------------------------------------ underlying allocator: two pools + ledger
- * Requests up to 16 bytes are served from a pool of small blocks (separate 16-byte objects), all others from an
+ * Requests up to SMALL_CAP (16) bytes are served from a pool of small blocks (separate objects of that size), all others from an
  * arena of 1032-byte slots whose bytes are never touched by the harness (the cache must not touch them either:
  * only addresses matter).  Keeping the small blocks apart keeps the solver's memory model small. */
 #define NSMALL (MAXOPS + 2)
 #define NBIG (MAXOPS + 2)
 #define NSLOT (NSMALL + NBIG)
-#define SMALL_CAP 16
+#ifndef SMALL_CAP
+#define SMALL_CAP 16      /* = sizeof(SimpleStringMemoryBlock): the bookkeeping blocks fit exactly */
+#endif
 #ifdef LL2C_CBMC
 #define SLOT_CAP 8          /* solver world: data blocks are address-only stand-ins (nobody may touch their bytes) */
 #else
@@ -56,7 +58,7 @@ uint32_t env_vsnprintf(uint8_t* s, uint64_t n, uint8_t* f, uint8_t* va) { (void)
 #define SLOT_MAX 1032       /* largest request the arena serves */
 #define ANY (~(uint64_t)0)
 enum { E_NOTMINE = 1, E_DOUBLE = 2, E_SIZE = 4 };
-static uint64_t sm0[2], sm1[2], sm2[2], sm3[2], sm4[2], sm5[2], sm6[2], sm7[2];
+static uint64_t sm0[SMALL_CAP / 8], sm1[SMALL_CAP / 8], sm2[SMALL_CAP / 8], sm3[SMALL_CAP / 8], sm4[SMALL_CAP / 8], sm5[SMALL_CAP / 8], sm6[SMALL_CAP / 8], sm7[SMALL_CAP / 8];
 static uint8_t arena[NBIG][SLOT_CAP] __attribute__((aligned(8)));
 static uint8_t* slot_addr(int i) {
   switch (i) { case 0: return (uint8_t*)sm0; case 1: return (uint8_t*)sm1; case 2: return (uint8_t*)sm2; case 3: return (uint8_t*)sm3;
